@@ -5,7 +5,7 @@ use super::verif_stream_dispatch__vs::*;
 use super::*;
 use std::task::Context;
 
-// @verif id=VS.synack props=C17,C11 tier=quick timeout=900
+// @verif id=VS.synack props=C17,C11,C09 tier=quick timeout=900
 // @functions VirtualSocket::maybe_send_syn_ack, VirtualSocket::send_ack, VirtualSocket::send_control_packet
 // @bounds states SynReceived, SynAckSent{count 0..=6}, Established; resend timer idle or armed within +-300 ms of now; transport ready or blocked; configured retransmission limit 5
 // @asserts SynReceived: a state packet acknowledging the SYN's sequence number goes out at once, state SynAckSent{1}, resend timer now+200 ms; SynAckSent: repeated only when the timer fired, count+1, timer re-armed; at the limit the connection fails with MaxSynAckRetransmissionsReached instead of sending; timer not fired: silence; other states: nothing sent, timer off; blocked transport: nothing changes
@@ -67,7 +67,7 @@ fn vs_maybe_send_syn_ack() {
 }
 }
 
-// @verif id=VS.fin props=C17,C06,C11 tier=quick timeout=900
+// @verif id=VS.fin props=C17,C06,C11,C09 tier=quick timeout=900
 // @functions VirtualSocket::maybe_send_fin, VirtualSocket::send_control_packet, VirtualSocketState::our_fin_if_unacked
 // @bounds states Established, FinWait1{f}, FinWait2, LastAck{f}; our FIN number f anywhere (16-bit wrap), last sent sequence number f-3 ..= f; retransmit timer idle or armed; transport ready or blocked
 // @asserts a FIN is emitted only if one is owed (FinWait1/LastAck) and everything before it was transmitted (f - last_sent == 1): then exactly one ST_FIN with seq_nr == f and ack_nr == last consumed goes out, last_sent := f, the retransmission timer runs (now + RTO unless an earlier deadline exists); otherwise nothing is sent and nothing changes
